@@ -160,6 +160,23 @@ Fixpoint parts_loop (ifs : str) (i0 : bool) (ps : list part) (s : st) : st :=
 Definition word_fields (oifs : option str) (ps : list part) : list str :=
   map (@concat N) (fields (flush (parts_loop (cfg_ifs oifs) true ps st0))).
 
+(* --- one Config used for several calls (the interpreter keeps one per Runner) ---------
+   prepareConfig runs at the start of every call and overwrites cfg.ifs: default
+   separators unless IFS is set in the environment of *this* call; what an earlier
+   call left in cfg.ifs ([prev]) is never read. *)
+Definition prepare_config (prev : str) (oifs : option str) : str :=
+  match oifs with Some s => s | None => default_ifs end.
+
+Definition word_fields_on (prev : str) (oifs : option str) (ps : list part) : list str :=
+  map (@concat N) (fields (flush (parts_loop (prepare_config prev oifs) true ps st0))).
+
+(* the calls made on one Config, cfg.ifs threaded from call to call *)
+Fixpoint fields_seq (prev : str) (calls : list (option str * list part)) : list (list str) :=
+  match calls with
+  | [] => []
+  | (oifs, ps) :: rest => word_fields_on prev oifs ps :: fields_seq (prepare_config prev oifs) rest
+  end.
+
 (* --- Spec: POSIX 2.6.5 over the flattened word ----------------------------------- *)
 (* What the word expands to, character by character:
      C r  a character that is not subject to splitting (literal, quoted, or not in IFS)
